@@ -2011,8 +2011,9 @@ func (t *Topic) anotherUserSub(sess *Session, asUid, target types.Uid, asChan bo
 		}
 
 		if sub != nil {
-			// Existing deleted subscription.
-			modeWant = sub.ModeWant
+			// Existing deleted subscription. Ownership is never taken over silently: if the new grant
+			// offers it, the invitee has to accept the transfer explicitly.
+			modeWant = sub.ModeWant &^ types.ModeOwner
 		} else {
 			// Get user's default access mode to be used as modeWant
 			if user, err := store.Users.Get(target); err != nil {
